@@ -226,16 +226,16 @@ Proof.
 Qed.
 
 (* ---------------------------------------------------------------- assembling the re-run *)
-Lemma assemble latest rows0 ds dsLe dsT GK T dsGK :
+Lemma assemble_any annual latest rows0 ds dsLe dsT GK T dsGK :
   let rows := Summary.number_from 0 rows0 in
   Forall (fun t => t_glob t = false) rows0 ->
   T = filter (fun t => latest <? t_sd t) (sort_txs rows) ->
-  make_summary exact latest ds false = Ok GK -> through_csv GK = GK ->
+  make_summary exact latest ds annual = Ok GK -> through_csv GK = GK ->
   Forall (fun t => t_glob t = false) GK -> sd_sorted GK -> Forall (fun t => t_sd t <= latest) GK ->
   run exact None (GK ++ T) = (dsGK ++ dsT, None) ->
   ds = dsLe ++ dsT -> Forall (fun d => d_sd d <= latest) dsLe -> Forall (fun d => latest < d_sd d) dsT ->
   Forall (fun d => d_sd d <= latest) dsGK ->
-  roundtrip_of exact latest false rows ds = true /\ roundtrip_obs_of exact latest false rows ds = true.
+  roundtrip_of exact latest annual rows ds = true /\ roundtrip_obs_of exact latest annual rows ds = true.
 Proof.
   intros rows Hng ET Hms Hcsv HngGK HsGK HleGK Hrun Eds HLe HT HGK.
   unfold roundtrip_of, roundtrip_obs_of. rewrite Hms, Hcsv.
@@ -273,6 +273,8 @@ Proof.
       same_reports_erase.
     rewrite Eds, (later_deltas_split latest dsLe dsT HLe HT). apply same_reports_refl.
 Qed.
+
+Definition assemble := assemble_any false.
 
 (* ---------------------------------------------------------------- more cuts *)
 Lemma run_part_cut A c l bef st X ds b st' :
